@@ -297,6 +297,9 @@ macro_rules! bezier_impl_cubic_axis {
                 let b = six * (self.ctrl1.$x - two * self.ctrl0.$x + self.start.$x);
                 let c = three * (self.ctrl0.$x - self.start.$x);
 
+                // Wants to use IsBetween01, but that would annoyingly propagate the trait bound.
+                let is_between01 = |t| { T::zero() < t && t < T::one() };
+
                 // If the derivative is a linear function
                 if a.abs() <= T::epsilon() {
                     return if b.abs() <= T::epsilon() {
@@ -307,12 +310,14 @@ macro_rules! bezier_impl_cubic_axis {
                             None
                         }
                     } else {
-                        Some((-c / b, None))
+                        let t = -c / b;
+                        if is_between01(t) {
+                            Some((t, None))
+                        } else {
+                            None
+                        }
                     };
                 }
-
-                // Wants to use IsBetween01, but that would annoyingly propagate the trait bound.
-                let is_between01 = |t| { T::zero() < t && t < T::one() };
 
                 let discriminant = b * b - four * a * c;
 
